@@ -1728,6 +1728,13 @@ func (st *fstate) builtin(in ssa.Instruction, name string, c *ssa.CallCommon, re
 		st.addPts(res, base)
 		so := e.site(res, res.Type())
 		st.addObj(res, so)
+		// append(x[:k], …) with a two-index re-slice: the elements of x beyond k are spare capacity of the
+		// operand, so the append overwrites x's own elements in place whenever they fit
+		if sl, ok := c.Args[0].(*ssa.Slice); ok && sl.High != nil && sl.Max == nil {
+			if _, isArr := sl.X.Type().Underlying().(*types.Pointer); !isArr {
+				st.mut(st.get(sl.X), elemType(res.Type()), in, "append onto a shortened re-slice x[:k] writes the elements of x beyond k", nil)
+			}
+		}
 		if len(c.Args) > 1 {
 			et := elemType(res.Type())
 			if hasPtr(et) {
